@@ -348,7 +348,7 @@ const numMutations = 11 + 6
 func runC02(env *Env) error {
 	env.Header = codecHeader + "Corr.Codec Corr.C02."
 	env.ShardSize = 150
-	env.Rule = "trees: every single structural mutation (11 replacement values, delete, alien member, case variant of the name, duplicate member, swap, added known field) at every position of every nesting level of a corpus of valid encodings of generated envelopes, plus PRNG double mutations and hand-written regression trees; bytes: truncations at every offset, concatenations, byte flips. Each input goes to the 5 typed decoders, the TCP receive path and (as one text frame, in a process of its own because a panic there cannot be recovered) the WebSocket receive path; accepted results are re-encoded and re-decoded. Non-trivial: at least one decoder accepted the input or a mutation hit nesting level >= 2; distinct by input bytes."
+	env.Rule = "trees: every single structural mutation (11 replacement values, delete, alien member, case variant of the name, duplicate member, swap, added known field) at every position of every nesting level of a corpus of valid encodings of generated envelopes, plus PRNG double mutations and hand-written regression trees, every string up to length 4 (5) over {a, /, +} as media type in the four places where one is parsed; bytes: truncations at every offset, concatenations, byte flips. Each input goes to the 5 typed decoders, the TCP receive path and (as one text frame, in a process of its own because a panic there cannot be recovered) the WebSocket receive path; accepted results are re-encoded and re-decoded. Non-trivial: at least one decoder accepted the input or a mutation hit nesting level >= 2; distinct by input bytes."
 	g := &gen{rng: env.Rng}
 	seen := map[string]bool{}
 	wsIso := &wsIsolated{}
@@ -436,6 +436,19 @@ func runC02(env *Env) error {
 	for _, s := range regress {
 		addBytes([]byte(s), "regression")
 	}
+
+	// every short string over {a, /, +} as a media type, in each place where one is parsed
+	allStrings([]byte{'a', '/', '+'}, env.Pick(4, 5), func(mt string) {
+		q, _ := json.Marshal(mt)
+		for _, tmpl := range []string{
+			`{"type":%s,"content":"x"}`,
+			`{"type":"application/vnd.lime.container+json","content":{"type":%s,"value":"x"}}`,
+			`{"type":"application/vnd.lime.collection+json","content":{"itemType":%s,"items":["x"]}}`,
+			`{"method":"set","uri":"/x","type":%s,"resource":"x"}`,
+		} {
+			addBytes([]byte(fmt.Sprintf(tmpl, q)), "media-type-string")
+		}
+	})
 
 	// corpus of valid encodings
 	ncorpus := env.Pick(14, 60)
